@@ -600,19 +600,33 @@ impl Sched {
 
 struct SubWorld {
     tm: TableManager,
-    srcs: Vec<Arc<table::Source>>,                 // index = peer
+    srcs: Vec<Mutex<Arc<table::Source>>>,          // index = peer; replaced after a graceful-restart down
     attrs: Vec<Arc<Vec<packet::Attribute>>>,       // index = token
     nets: [[packet::Nlri; 4]; 2],                  // [shard][index]
     pols: Vec<Arc<table::PolicyAssignment>>,
     ctrs: Vec<Arc<std::sync::atomic::AtomicU64>>,  // index = peer
     lims: Vec<Option<u32>>,
+    subs: Vec<Mutex<Option<Subscription>>>,        // index = subscription slot
 }
 
+fn sub_new_source(p: u32) -> Arc<table::Source> {
+    Arc::new(table::Source::new(
+        peer_addr(p),
+        IpAddr::V4(Ipv4Addr::new(127, 0, 0, 1)),
+        65000 + p,
+        65000,
+        Ipv4Addr::new(1, 1, 1, p as u8),
+        table::PeerRole::Ebgp,
+    ))
+}
+fn sub_src(w: &SubWorld, peer: usize) -> Arc<table::Source> {
+    w.srcs[peer].lock().unwrap().clone()
+}
 fn sub_net(w: &SubWorld, sh: usize, ix: usize) -> packet::Nlri {
     w.nets[sh.min(1)][ix % 4].clone()
 }
 fn sub_key(w: &SubWorld, src: &table::Source, n: &packet::PathNlri) -> Val {
-    let peer = w.srcs.iter().position(|s| s.remote_addr == src.remote_addr).map(|x| x as i128).unwrap_or(-1);
+    let peer = nh_id(src.remote_addr);
     let mut pos = (-1i128, -1i128);
     for sh in 0..2 {
         for ix in 0..4 {
@@ -626,8 +640,17 @@ fn sub_key(w: &SubWorld, src: &table::Source, n: &packet::PathNlri) -> Val {
 fn sub_tok(w: &SubWorld, a: &Arc<Vec<packet::Attribute>>) -> Val {
     Val::I(w.attrs.iter().position(|x| Arc::ptr_eq(x, a)).map(|x| x as i128).unwrap_or(-1))
 }
+fn sub_peer_down(w: &SubWorld, p: usize) {
+    w.tm.peer_down(PeerDownData {
+        peer_addr: peer_addr(p as u32),
+        peer_asn: 65000 + p as u32,
+        peer_id: p as u32,
+        uptime: 0,
+        reason: packet::bmp::PeerDownReason::RemoteUnexpected,
+    });
+}
 
-fn sub_do_op(w: &SubWorld, op: &Val, slot: &Mutex<Option<Subscription>>) {
+fn sub_do_op(w: &SubWorld, op: &Val) {
     let path = |op: &Val| {
         let peer = op.at(1).usize();
         let n = sub_net(w, op.at(2).usize(), op.at(3).usize());
@@ -639,16 +662,18 @@ fn sub_do_op(w: &SubWorld, op: &Val, slot: &Mutex<Option<Subscription>>) {
             },
         )
     };
+    let fam = [Family::IPV4];
     match op.at(0).u32() {
         0 => {
+            let j = if op.list().len() > 1 { op.at(1).usize() } else { 0 };
             let s = w.tm.subscribe(true);
-            *slot.lock().unwrap() = Some(s);
+            *w.subs[j].lock().unwrap() = Some(s);
         }
         1 => {
             let (peer, net) = path(op);
             let pl = w.lims[peer].map(|m| (m, w.ctrs[peer].clone()));
             w.tm.insert_route(
-                w.srcs[peer].clone(),
+                sub_src(w, peer),
                 Family::IPV4,
                 net,
                 Some(bgp::Nexthop::V4(nh_addr(peer as u32))),
@@ -660,7 +685,7 @@ fn sub_do_op(w: &SubWorld, op: &Val, slot: &Mutex<Option<Subscription>>) {
         2 => {
             let (peer, net) = path(op);
             let ctr = w.lims[peer].map(|_| w.ctrs[peer].clone());
-            w.tm.remove_route(w.srcs[peer].clone(), Family::IPV4, net, ctr, 7);
+            w.tm.remove_route(sub_src(w, peer), Family::IPV4, net, ctr, 7);
         }
         3 => {
             let p = op.at(1).usize();
@@ -685,15 +710,9 @@ fn sub_do_op(w: &SubWorld, op: &Val, slot: &Mutex<Option<Subscription>>) {
         4 => {
             // the session-down glue of event/mod.rs: unregister_peer, then peer_down
             let p = op.at(1).usize();
-            w.tm.unregister_peer(peer_addr(p as u32), &[Family::IPV4], &[]);
+            w.tm.unregister_peer(peer_addr(p as u32), &fam, &[]);
             verif_sched::point(0);
-            w.tm.peer_down(PeerDownData {
-                peer_addr: peer_addr(p as u32),
-                peer_asn: 65000 + p as u32,
-                peer_id: p as u32,
-                uptime: 0,
-                reason: packet::bmp::PeerDownReason::RemoteUnexpected,
-            });
+            sub_peer_down(w, p);
             w.ctrs[p].store(0, std::sync::atomic::Ordering::Relaxed); // the session's counter dies with it
         }
         5 => w.tm.soft_reset_in(peer_addr(op.at(1).u32())),
@@ -705,13 +724,89 @@ fn sub_do_op(w: &SubWorld, op: &Val, slot: &Mutex<Option<Subscription>>) {
                 w.tm.import_policy.store(Some(w.pols[k - 1].clone()));
             }
         }
+        7 => {
+            // session down with graceful restart negotiated: the paths are kept, marked stale
+            let p = op.at(1).usize();
+            w.tm.unregister_peer(peer_addr(p as u32), &[], &fam);
+            verif_sched::point(0);
+            sub_peer_down(w, p);
+            w.ctrs[p].store(0, std::sync::atomic::Ordering::Relaxed);
+            *w.srcs[p].lock().unwrap() = sub_new_source(p as u32); // the next session has its own Source
+        }
+        8 => w.tm.drop_stale_families(peer_addr(op.at(1).u32()), &fam),
+        9 => w.tm.drop_families(peer_addr(op.at(1).u32()), &fam),
+        10 => w.tm.update_nexthop_validity(IpAddr::V4(nh_addr(op.at(1).u32())), op.at(2).bool()),
+        11 => w.tm.mark_llgr_stale(peer_addr(op.at(1).u32()), &fam),
+        12 => w.tm.drop_llgr_stale_families(peer_addr(op.at(1).u32()), &fam),
+        13 => {
+            let id = w.subs[op.at(1).usize()].lock().unwrap().as_ref().map(|s| s.id);
+            if let Some(id) = id {
+                w.tm.unsubscribe(id);
+            }
+        }
         _ => panic!("verif: unknown op"),
     }
 }
 
+/// what one subscriber received, its fold (bmp.rs apply_snapshot / track_peer_*)
+fn sub_drain(w: &SubWorld, sub: &mut Subscription) -> Val {
+    let mut evs = Vec::new();
+    let mut pre: crate::bmp::verif_fold::Snapshot = FnvHashMap::default();
+    let mut post: crate::bmp::verif_fold::Snapshot = FnvHashMap::default();
+    let mut sent: FnvHashSet<IpAddr> = FnvHashSet::default();
+    let mut fwd = Vec::new();
+    let peer_of = |a: IpAddr| Val::I(nh_id(a));
+    while let Ok(e) = sub.rx.try_recv() {
+        match e {
+            BgpEvent::AdjRibIn(c) => {
+                for nl in &c.nlris {
+                    evs.push(Val::L(vec![Val::I(0), sub_key(w, &c.source, nl), Val::opt(c.attrs.as_ref().map(|a| sub_tok(w, a)))]));
+                }
+                crate::bmp::verif_fold::apply(&mut pre, c);
+            }
+            BgpEvent::AdjRibInPost(c) => {
+                for nl in &c.nlris {
+                    evs.push(Val::L(vec![Val::I(1), sub_key(w, &c.source, nl), Val::opt(c.attrs.as_ref().map(|a| sub_tok(w, a)))]));
+                }
+                crate::bmp::verif_fold::apply(&mut post, c);
+            }
+            BgpEvent::PeerUp(d) => {
+                evs.push(Val::L(vec![Val::I(2), peer_of(d.peer_addr)]));
+                crate::bmp::verif_fold::peer_up(&mut sent, d.peer_addr);
+                fwd.push(Val::L(vec![Val::I(2), peer_of(d.peer_addr)]));
+            }
+            BgpEvent::PeerDown(d) => {
+                evs.push(Val::L(vec![Val::I(3), peer_of(d.peer_addr)]));
+                // a monitoring station forgets the peer's routes on Peer Down
+                pre.remove(&d.peer_addr);
+                post.remove(&d.peer_addr);
+                if crate::bmp::verif_fold::peer_down(&mut sent, d.peer_addr) {
+                    fwd.push(Val::L(vec![Val::I(3), peer_of(d.peer_addr)]));
+                }
+            }
+            BgpEvent::EndOfSnapshot => evs.push(Val::L(vec![Val::I(4)])),
+            _ => {}
+        }
+    }
+    let dump = |m: &crate::bmp::verif_fold::Snapshot| {
+        let mut v: Vec<Val> = Vec::new();
+        for pm in m.values() {
+            for ((_, nl), c) in pm {
+                v.push(Val::L(vec![sub_key(w, &c.source, nl), sub_tok(w, c.attrs.as_ref().unwrap())]));
+            }
+        }
+        v.sort_by_key(|x| format!("{}", x));
+        Val::L(v)
+    };
+    Val::L(vec![Val::L(evs), dump(&pre), dump(&post), Val::L(fwd)])
+}
+
 /// case = [[pols, lims], progs, sched]
+/// observation = [iter_reach (with the stale mark of the path's Source), iter_reach_post,
+///                [per subscription slot: [events, fold pre, fold post, forwarded]]]
 fn run_sub_case(case: &Val) -> Val {
     const NPEER: usize = 4;
+    const NSUB: usize = 3;
     let tm = TableManager::new(2);
     // concrete prefixes for (shard, index)
     let mut found: [Vec<packet::Nlri>; 2] = [vec![], vec![]];
@@ -738,19 +833,8 @@ fn run_sub_case(case: &Val) -> Val {
     }
     let w = SubWorld {
         tm,
-        srcs: (0..NPEER as u32)
-            .map(|p| {
-                Arc::new(table::Source::new(
-                    peer_addr(p),
-                    IpAddr::V4(Ipv4Addr::new(127, 0, 0, 1)),
-                    65000 + p,
-                    65000,
-                    Ipv4Addr::new(1, 1, 1, p as u8),
-                    table::PeerRole::Ebgp,
-                ))
-            })
-            .collect(),
-        attrs: (0..8u32).map(|t| mk_attrs(t % 3, false, false, &[t])).collect(),
+        srcs: (0..NPEER as u32).map(|p| Mutex::new(sub_new_source(p))).collect(),
+        attrs: (0..8u32).map(|t| mk_attrs(t % 3, false, t >= 4, &[t])).collect(),
         nets,
         pols: cfg
             .at(0)
@@ -764,23 +848,22 @@ fn run_sub_case(case: &Val) -> Val {
             .collect(),
         ctrs: (0..NPEER).map(|_| Arc::new(std::sync::atomic::AtomicU64::new(0))).collect(),
         lims,
+        subs: (0..NSUB).map(|_| Mutex::new(None)).collect(),
     };
     let progs = case.at(1).list();
     let n = progs.len();
     let sched = Arc::new(Sched::new(n));
-    let slot: Mutex<Option<Subscription>> = Mutex::new(None);
     std::thread::scope(|sc| {
         for (i, prog) in progs.iter().enumerate() {
             let sched = sched.clone();
             let w = &w;
-            let slot = &slot;
             sc.spawn(move || {
                 let s2 = sched.clone();
                 verif_sched::install(Box::new(move |_id| s2.park(i)));
                 let r = std::panic::catch_unwind(std::panic::AssertUnwindSafe(|| {
                     for op in prog.list() {
                         verif_sched::point(0);
-                        sub_do_op(w, op, slot);
+                        sub_do_op(w, op);
                     }
                 }));
                 sched.finish(i);
@@ -799,63 +882,19 @@ fn run_sub_case(case: &Val) -> Val {
             while sched.grant(i) {}
         }
     });
-    // what the subscriber received, and its fold (bmp.rs apply_snapshot / track_peer_*)
-    let mut evs = Vec::new();
-    let mut pre: crate::bmp::verif_fold::Snapshot = FnvHashMap::default();
-    let mut post: crate::bmp::verif_fold::Snapshot = FnvHashMap::default();
-    let mut sent: FnvHashSet<IpAddr> = FnvHashSet::default();
-    let mut fwd = Vec::new();
-    let peer_of = |a: IpAddr| Val::I(nh_id(a));
-    if let Some(mut sub) = slot.lock().unwrap().take() {
-        while let Ok(e) = sub.rx.try_recv() {
-            match e {
-                BgpEvent::AdjRibIn(c) => {
-                    for nl in &c.nlris {
-                        evs.push(Val::L(vec![Val::I(0), sub_key(&w, &c.source, nl), Val::opt(c.attrs.as_ref().map(|a| sub_tok(&w, a)))]));
-                    }
-                    crate::bmp::verif_fold::apply(&mut pre, c);
-                }
-                BgpEvent::AdjRibInPost(c) => {
-                    for nl in &c.nlris {
-                        evs.push(Val::L(vec![Val::I(1), sub_key(&w, &c.source, nl), Val::opt(c.attrs.as_ref().map(|a| sub_tok(&w, a)))]));
-                    }
-                    crate::bmp::verif_fold::apply(&mut post, c);
-                }
-                BgpEvent::PeerUp(d) => {
-                    evs.push(Val::L(vec![Val::I(2), peer_of(d.peer_addr)]));
-                    crate::bmp::verif_fold::peer_up(&mut sent, d.peer_addr);
-                    fwd.push(Val::L(vec![Val::I(2), peer_of(d.peer_addr)]));
-                }
-                BgpEvent::PeerDown(d) => {
-                    evs.push(Val::L(vec![Val::I(3), peer_of(d.peer_addr)]));
-                    // a monitoring station forgets the peer's routes on Peer Down
-                    pre.remove(&d.peer_addr);
-                    post.remove(&d.peer_addr);
-                    if crate::bmp::verif_fold::peer_down(&mut sent, d.peer_addr) {
-                        fwd.push(Val::L(vec![Val::I(3), peer_of(d.peer_addr)]));
-                    }
-                }
-                BgpEvent::EndOfSnapshot => evs.push(Val::L(vec![Val::I(4)])),
-                _ => {}
-            }
+    let mut subs = Vec::new();
+    for slot in &w.subs {
+        match slot.lock().unwrap().as_mut() {
+            Some(sub) => subs.push(sub_drain(&w, sub)),
+            None => subs.push(Val::L(vec![])),
         }
     }
-    let dump = |m: &crate::bmp::verif_fold::Snapshot| {
-        let mut v: Vec<Val> = Vec::new();
-        for pm in m.values() {
-            for ((_, nl), c) in pm {
-                v.push(Val::L(vec![sub_key(&w, &c.source, nl), sub_tok(&w, c.attrs.as_ref().unwrap())]));
-            }
-        }
-        v.sort_by_key(|x| format!("{}", x));
-        Val::L(v)
-    };
     let mut rib_pre = Vec::new();
     let mut rib_post = Vec::new();
     for shard in &w.tm.shards {
         let t = shard.lock().unwrap();
         for r in t.rtable.iter_reach(Family::IPV4) {
-            rib_pre.push(Val::L(vec![sub_key(&w, &r.source, &r.net), sub_tok(&w, &r.attr)]));
+            rib_pre.push(Val::L(vec![sub_key(&w, &r.source, &r.net), sub_tok(&w, &r.attr), Val::b(r.source.is_stale())]));
         }
         for r in t.rtable.iter_reach_post(Family::IPV4) {
             rib_post.push(Val::L(vec![sub_key(&w, &r.source, &r.net), sub_tok(&w, &r.attr)]));
@@ -863,7 +902,7 @@ fn run_sub_case(case: &Val) -> Val {
     }
     rib_pre.sort_by_key(|x| format!("{}", x));
     rib_post.sort_by_key(|x| format!("{}", x));
-    Val::L(vec![Val::L(evs), Val::L(rib_pre), Val::L(rib_post), dump(&pre), dump(&post), Val::L(fwd)])
+    Val::L(vec![Val::L(rib_pre), Val::L(rib_post), Val::L(subs)])
 }
 
 #[test]
